@@ -229,6 +229,33 @@ def _run_one(spec, tier, seed, replay=None):
             else:
                 tie_failures.append((i, d, in_by_id.get(i, ""), obs_by_id.get(i, "")))
 
+        # 4b. release-profile replay (thorough tier, SPEC key `release`): the same inputs through a --release
+        # build of the harness; where the dev build did not panic the observation must be identical
+        # (debug_assert!s, overflow checks and optimisation-dependent behaviour are otherwise never seen)
+        want_release = (spec.get("release", not spec.get("harness_build")) and os.environ.get("VERIF_NO_RELEASE") != "1"
+                        and getattr(C.build_harness, "__module__", "") == "vlib.common")  # not for swapped-in own builds
+        if want_release and not replay:
+            hr = C.build_harness(spec["harness_bin"], release=True)
+            if not hr["ok"]:
+                infra_errors.append("release harness build failed:\n" + hr["log"][-2000:])
+            else:
+                sample = [l for l in inputs[:int(spec.get("release_n", 4000))]
+                          if "anic" not in (obs_by_id.get(l.split(" ", 1)[0]) or "anic")]
+                # judged by the same driver (canonicalised observables), not by comparing raw text
+                o_r, v_r, e_r = evaluate(spec, hr["path"], db["path"], sample)
+                infra_errors.extend("release replay: " + e for e in e_r)
+                nbad = 0
+                for i, (v, d) in v_r.items():
+                    if v == "OK" or verdicts.get(i, ("OK", ""))[0] != "OK":
+                        continue
+                    nbad += 1
+                    if v == "PROPFAIL":
+                        prop_failures.append((i, "release-profile: " + d, in_by_id.get(i, ""), o_r.get(i, "")))
+                    else:
+                        tie_failures.append((i, "release-profile: " + d, in_by_id.get(i, ""), o_r.get(i, "")))
+                evaluations += len(v_r)
+                notes.append("release-profile replay: %d cases that do not panic in the dev profile, %d not OK" % (len(v_r), nbad))
+
         # 5. search when a tie broke and no failing input is known yet ----------
         if (proof_failures or tie_failures) and not prop_failures and not replay:
             n2 = spec.get("search_n", {}).get(tier, 4 * spec["n"][tier])
